@@ -18,6 +18,16 @@ Expect(c) == [status |-> Status(c), challenge |-> Status(c) = 401, forwarded |->
 Uniform == \A a, b \in Cases : a.auth = b.auth /\ a.cred = b.cred => Status(a) = Status(b)
 ASSUME Uniform
 
+(* The readiness probe (`forwarder ready`) asks /readyz of that server and turns the   *)
+(* answer into an exit status.  It has no way to present credentials, so behind the    *)
+(* gate it can only report "not ready" (ProbeCannotAuthenticate) - stated, as the code  *)
+(* does it.                                                                             *)
+Targets == {"nothing-listens", "serving", "serving-gated", "other-server-404"}
+ProbeExit(t) == IF t = "serving" THEN 0 ELSE 1
+ProbeCannotAuthenticate == ProbeExit("serving-gated") # 0
+ASSUME ProbeCannotAuthenticate
+ASSUME \A t \in Targets : PrintT(ToJson([probe |-> t, exit |-> ProbeExit(t)]))
+
 VARIABLE c
 Init == c \in Cases
 Next == FALSE /\ UNCHANGED c
